@@ -171,6 +171,25 @@ func runC09(tb ev.TB, p c09Prog) ev.Result {
 		// some older entry, i.e. of ANOTHER state of the log
 		classes = append(classes, "one-LogOptions-value-for-all-loads")
 		extra.LogOpts = &ipfslog.LogOptions{ID: sim.LogID, SortFn: world.SortFn(w.Order), IO: w.IO}
+		// ... and one fetch-options value per options type, which has served before too: for a load of ANOTHER log,
+		// written with another codec configuration, from its published head list
+		extra.FetchOpts, extra.FetchOptsL = &iface.FetchOptions{}, &ipfslog.FetchOptions{}
+		asideIO := world.IO(world.CodecLinkKey, 3)
+		if world.Codec(w.Prog.Codec) == world.CodecLinkKey {
+			asideIO = world.IO(world.CodecDefault, 0)
+		}
+		aside, err := world.NewLog(w.Store.API(), 5, "aside-log", w.Order, asideIO, nil)
+		if err != nil {
+			tb.Fatalf("harness: %v", err)
+		}
+		for i := 0; i < 3; i++ {
+			if _, err := aside.Append(ctx, []byte{byte('a' + i)}, &ipfslog.AppendOptions{PointerCount: 2}); err != nil {
+				tb.Fatalf("harness: %v", err)
+			}
+		}
+		if al, err := ipfslog.NewFromJSON(ctx, w.Store.API(), world.Identity(7), aside.ToJSONLog(), &ipfslog.LogOptions{ID: "aside-log", SortFn: world.SortFn(w.Order), IO: asideIO}, extra.FetchOpts); err != nil || al.Len() != 3 {
+			tb.Fatalf("load of another log (3 entries, another codec configuration) with the caller's one fetch-options value: %v", err)
+		}
 		old := allEntries[p.ReuseOpts%len(allEntries)]
 		for i := 0; i < len(allEntries) && old.GetLogID() != sim.LogID; i++ { // (entries of a continued older log are not this log's)
 			old = allEntries[(p.ReuseOpts+i)%len(allEntries)]
@@ -181,7 +200,7 @@ func runC09(tb ev.TB, p c09Prog) ev.Result {
 			if err != nil {
 				tb.Fatalf("harness: %v", err)
 			}
-			first, err := doLoad(ctx, w.Store.API(), w, loaderNames[p.ReuseOpts%4], oldManifest, oldJSON, []iface.IPFSLogEntry{old}, old.GetHash(), nil, 0, nil, 0, loadExtra{LogOpts: extra.LogOpts})
+			first, err := doLoad(ctx, w.Store.API(), w, loaderNames[p.ReuseOpts%4], oldManifest, oldJSON, []iface.IPFSLogEntry{old}, old.GetHash(), nil, 0, nil, 0, loadExtra{LogOpts: extra.LogOpts, FetchOpts: extra.FetchOpts, FetchOptsL: extra.FetchOptsL})
 			if err != nil {
 				tb.Fatalf("load of the history below %s failed: %v", world.Short(old.GetHash().String()), err)
 			}
